@@ -448,6 +448,100 @@ Proof.
   intros s0 i H0. destruct (col_of_loc s0 t i); auto. now apply Inv_nn_rename.
 Qed.
 
+(* ------------------------------------------------------------------ selection-aware editors, general addColumns *)
+Lemma set_cell_col_inv e c v s : Inv s -> Inv (set_cell_col e c v s).
+Proof.
+  intro H. unfold set_cell_col. destruct (zidx c (ncol s)) as [c'|] eqn:Ec; auto.
+  destruct (zidx e (nech s)) as [e'|]; auto. apply zidx_some in Ec. destruct Ec as [Ec _].
+  pose proof H as [[Ha [Hn Hc]] _]. apply Inv_with_arr; auto.
+  - now rewrite length_set_nth.
+  - intros col Hin. apply In_set_nth in Hin. destruct Hin as [->|Hin]; auto.
+    rewrite length_set_nth. apply Hc. apply nth_In. lia.
+Qed.
+Lemma set_col_uid_loop_inv es : forall lec sel tab u s, Inv s -> Inv (set_col_uid_loop es lec sel tab u s).
+Proof.
+  induction es as [|e r IH]; intros lec sel tab u s H; simpl; auto.
+  destruct (match sel with [] => true | _ => sel_on (nth e sel None) end); apply IH; auto. now apply set_cell_inv.
+Qed.
+Lemma set_column_uid_sel_inv u tab us s : Inv s -> Inv (set_column_uid_sel u tab us s).
+Proof. apply set_col_uid_loop_inv. Qed.
+Lemma set_col_col_loop_inv es : forall lec sel tab c s, Inv s -> Inv (set_col_col_loop es lec sel tab c s).
+Proof.
+  induction es as [|e r IH]; intros lec sel tab c s H; simpl; auto.
+  destruct (match sel with [] => true | _ => sel_on (nth e sel None) end); apply IH; now apply set_cell_col_inv.
+Qed.
+Lemma set_column_col_inv c tab us s : Inv s -> Inv (set_column_col c tab us s).
+Proof. intro H. unfold set_column_col. destruct (zidx c (ncol s)); auto. now apply set_col_col_loop_inv. Qed.
+Lemma set_from_loc_inv t e k v s : Inv s -> Inv (set_from_loc t e k v s).
+Proof.
+  intro H. unfold set_from_loc. destruct (zidx e (nech s)); auto. destruct (col_of_loc s t k); auto.
+  now apply set_cell_col_inv.
+Qed.
+Lemma del_samples_loop_inv es : forall s, Inv s -> Inv (del_samples_loop es s).
+Proof.
+  induction es as [|e r IH]; intros s H; simpl; auto. destruct (zidx e (nech s)); auto.
+  apply IH. now apply del_sample_inv.
+Qed.
+Lemma add_cols_gen_inv tab radix t k us vi nv s :
+  Inv s -> add_ok t k s = 0%Z -> Inv (add_cols_gen tab radix t k us vi nv s).
+Proof.
+  intros H Hok. unfold add_cols_gen. destruct tab as [|x tab']; auto.
+  set (tab := x :: tab') in *.
+  pose proof (set_nech0_inv (length tab / nv) s H) as H0.
+  assert (El : loc (set_nech0 (length tab / nv) s) = loc s) by apply set_nech0_loc.
+  set (s0 := set_nech0 (length tab / nv) s) in *.
+  destruct (Nat.eqb _ 0); auto. destruct (negb _); auto.
+  apply fold_inv. intros; now apply set_column_uid_sel_inv.
+  apply add_cols_inv; auto. unfold add_ok in *. now rewrite El.
+Qed.
+Lemma add_sel_common_inv sel nm cmb s : Inv s -> Inv (add_sel_common sel nm cmb s).
+Proof. intro H. unfold add_sel_common. apply add_cols_gen_inv; auto. Qed.
+
+(* ------------------------------------------------------------------ resetDims: names New-1 .. New-n are distinct *)
+Definition dval_from (a : Z) (l : list Z) : Z := fold_left (fun a d => (a * 10 + (d - 48))%Z) l a.
+Lemma dec_aux_val fuel : forall n acc,
+  (0 <= n < 10 ^ Z.of_nat fuel)%Z -> dval_from 0 (dec_aux fuel n acc) = dval_from n acc.
+Proof.
+  induction fuel as [|f IH]; intros n acc Hn.
+  - simpl in Hn. assert (n = 0%Z) by lia. subst. reflexivity.
+  - cbn [dec_aux]. destruct (n <? 10)%Z eqn:E.
+    + apply Z.ltb_lt in E. unfold dval_from. cbn [fold_left]. f_equal. rewrite Z.mod_small by lia. lia.
+    + apply Z.ltb_ge in E. rewrite IH.
+      * unfold dval_from. cbn [fold_left]. f_equal. pose proof (Z.div_mod n 10). lia.
+      * rewrite Nat2Z.inj_succ, Z.pow_succ_r in Hn by lia.
+        split. apply Z.div_pos; lia. apply Z.div_lt_upper_bound; lia.
+Qed.
+Lemma pow10_gt n : (Z.of_nat n < 10 ^ Z.of_nat (S n))%Z.
+Proof.
+  induction n as [|n IH]. reflexivity.
+  rewrite (Nat2Z.inj_succ (S n)), Z.pow_succ_r by lia. lia.
+Qed.
+Lemma dec_val n : dval_from 0 (dec n) = Z.of_nat n.
+Proof. unfold dec. rewrite dec_aux_val. reflexivity. split. lia. apply pow10_gt. Qed.
+Lemma dec_inj a b : dec a = dec b -> a = b.
+Proof. intro H. apply Nat2Z.inj. rewrite <- !dec_val. now rewrite H. Qed.
+Lemma NoDup_map_inj {A B} (f : A -> B) l : (forall x y, f x = f y -> x = y) -> NoDup l -> NoDup (map f l).
+Proof.
+  intros Hf. induction 1; simpl; constructor; auto.
+  intro Hin. apply in_map_iff in Hin. destruct Hin as [y [E Hy]]. apply Hf in E. subst. contradiction.
+Qed.
+Lemma gen_names_NoDup radix n : NoDup (gen_names radix n).
+Proof.
+  unfold gen_names. apply NoDup_map_inj. 2: apply seq_NoDup.
+  intros i j E. unfold incr_version in E. apply app_inv_head in E. inversion E as [E'].
+  apply dec_inj in E'. lia.
+Qed.
+Lemma reset_dims_inv nc ne : Inv (reset_dims nc ne).
+Proof.
+  inv_split; simpl.
+  - apply repeat_length.
+  - apply length_gen_names.
+  - intros col Hin. apply repeat_spec in Hin. subst. apply repeat_length.
+  - unfold Inv_uid, uid_ok. simpl. rewrite (live_list_map_some (fun c => c)). apply map_id.
+  - unfold Inv_names. simpl. apply gen_names_NoDup.
+  - unfold Inv_loc, loc_ok. simpl. split; [intro; constructor | split; intros; contradiction].
+Qed.
+
 (* ------------------------------------------------------------------ C07_init, C07_step, C07_reachable *)
 Lemma init_inv : Inv init.
 Proof.
@@ -493,4 +587,19 @@ Proof.
   - now apply del_uid_range_inv.
   - now apply set_name_list_inv.
   - now apply set_name_loc_inv.
+  - now apply del_samples_loop_inv.
+  - now apply set_column_uid_sel_inv.
+  - now apply set_column_col_inv.
+  - unfold set_column_name. destruct (ids_name s p true).
+    + destruct tab. reflexivity || (unfold add_cols_gen; exact H). now apply add_cols_gen_inv.
+    + now apply set_column_uid_sel_inv.
+  - now apply set_cell_col_inv.
+  - now apply set_from_loc_inv.
+  - unfold add_cols_vvd. destruct (concat tabs) eqn:E.
+    + unfold add_cols_gen. exact H.
+    + rewrite <- E. apply add_cols_gen_inv; auto.
+  - unfold add_selection_c. destruct tab. now apply add_sel_common_inv.
+    destruct (negb _); auto. now apply add_sel_common_inv.
+  - now apply add_sel_common_inv.
+  - now apply add_sel_common_inv.
 Qed.
